@@ -317,6 +317,32 @@ PROPS['C11'] = dict(
                       'input:block-length'],
 )
 
+c06 = B('c06_serialize', 'c06_serialize.cpp', 'asan')
+c06p = B('c06_serialize', 'c06_serialize.cpp', 'prod')
+fz06 = B('fz_roundtrip', 'c06_serialize.cpp', 'fuzz')
+PROPS['C06'] = dict(
+    title='Serialize output is valid JSON that parses back to an equal document',
+    units=[
+        U(c06, 'prng', 20000, 1200000, wq=5, wt=8, label='c06-asan'),
+        U(c06p, 'prng', 50000, 3000000, wq=2, wt=4, label='c06-prod'),
+        U(c06, 'rc', 1500, 40000, wq=2, wt=2, label='c06-rc'),
+        F(fz06, 15, 600, wq=2, wt=2, label='fz_roundtrip', field='text', dict='fuzz/json.dict', seeds='fuzz/seeds/json'),
+    ],
+    harness_alias={'fz_roundtrip': 'c06_serialize'},
+    rule='cases: (document, write-buffer state). Documents: generated values (1..150 nodes, depth <= 8, empty containers anywhere, '
+         'single scalar roots, duplicate keys, strings of arbitrary bytes incl. NUL/0x7f/>=0x80, boundary integers, every double '
+         'class) built by parsing a rendered text or through the mutation API (copied or borrowed strings), pool and freeing '
+         'allocators; 1/12 of the cases plant +-inf or a NaN (with payload) at a random node. Write buffers: fresh, capacity '
+         '0/1/2/7/8/63/64/255/256/4096, reused after a smaller/larger document, moved-from-and-reassigned. Oracle: Serialize == '
+         'kErrorNone; refjson accepts the output and parses it to the generating value (kinds, bits, order, duplicates); '
+         'Dump()==output, Size()==strlen, NUL terminator; library parse-back equals (walk and ==); re-serialisation and a second '
+         'serialisation into the same buffer are byte-identical; last child sub-node Dump() correct; non-finite => '
+         'kSerErrorInfinity and Dump()=="". Non-trivial: depth >= 2, or an escape in the output, or long output, or a non-fresh buffer.',
+    min_evaluations=dict(quick=50000, thorough=1500000),
+    required_classes=['built:parse', 'built:mutation-api', 'alloc:freeing', 'alloc:pool', 'non-finite', 'wb:reused', 'wb:capacity/0',
+                      'wb:capacity/1', 'wb:moved/0'],
+)
+
 
 def tool_versions():
     out = {}
